@@ -42,6 +42,7 @@ import (
 	"github.com/jcmoraisjr/haproxy-ingress/pkg/common/ingress/controller"
 	"github.com/jcmoraisjr/haproxy-ingress/pkg/controller/legacy"
 	ingutils "github.com/jcmoraisjr/haproxy-ingress/pkg/converters/ingress/utils"
+	"github.com/jcmoraisjr/haproxy-ingress/pkg/converters/gateway"
 	convtypes "github.com/jcmoraisjr/haproxy-ingress/pkg/converters/types"
 
 	"verif/harness/lib/c0809"
@@ -330,6 +331,8 @@ type worldObs struct {
 	Log  []string     `json:"log,omitempty"`
 	// which object namespace a's host/backend uses for the reader's key ("" = none)
 	Used     string      `json:"used"`
+	// gateway sites with flip: the view right after the ConfigMap went from allow to deny (one reconciliation)
+	Window   *c0809.NsView `json:"view_of_a_one_reconciliation_after_deny,omitempty"`
 	Backends [][3]string `json:"-"`
 	Secrets  [][3]string `json:"-"`
 	Services [][2]string `json:"-"`
@@ -694,14 +697,32 @@ func runGwWorld(in input, variant int) worldObs {
 	}
 	env := c0809.NewEnv(nextDir(), c0809.CfgIn{IngressClass: "haproxy", ControllerName: oursCtrl, AllowCrossNs: in.Setting.Static, Gateway: true}, objs...)
 	p := c0809.NewPipeline(env)
-	p.Watchers.FireCreate(c0809.ConfigMap(globalMap(in.Setting)))
-	p.Reconcile(p.Watchers.Swap(), nil)
+	cm := c0809.ConfigMap(globalMap(in.Setting))
+	var window *c0809.NsView
+	if in.Flip {
+		// allow first (two full reconciliations, so that the gateway converter sees it), then deny
+		first := in.Setting
+		first.Vals[gwBitOf(ref.Site)] = "allow"
+		cm0 := c0809.ConfigMap(globalMap(first))
+		p.Watchers.FireCreate(cm0)
+		p.Reconcile(p.Watchers.Swap(), nil)
+		ch0 := p.Watchers.Swap()
+		ch0.NeedFullSync = true
+		p.Reconcile(ch0, nil)
+		p.Watchers.FireUpdate(cm0, cm)
+		p.Reconcile(p.Watchers.Swap(), nil)
+		v := p.ViewOf("a", map[string]bool{"a.local": true})
+		window = &v
+	} else {
+		p.Watchers.FireCreate(cm)
+		p.Reconcile(p.Watchers.Swap(), nil)
+	}
 	// a second full reconciliation: the gateway converter runs before the global config is
 	// parsed, so only now it sees the permission bits of the ConfigMap
 	ch := p.Watchers.Swap()
 	ch.NeedFullSync = true
 	p.Reconcile(ch, nil)
-	wo := worldObs{View: p.ViewOf("a", map[string]bool{"a.local": true}), Log: p.Log.Take(), Secrets: secrets, Services: svcs}
+	wo := worldObs{Window: window, View: p.ViewOf("a", map[string]bool{"a.local": true}), Log: p.Log.Take(), Secrets: secrets, Services: svcs}
 	if isCert {
 		wo.Used = usedBy(p, "tls")
 	} else {
@@ -757,10 +778,96 @@ func genGwSite(rng *rand.Rand) input {
 	}
 	in.AOwn = rng.Intn(3) == 0
 	in.Order = []string{"", "owner-first", "owner-first", "owner-last"}[rng.Intn(4)]
+	in.Flip = rng.Intn(4) == 0
 	return in
 }
 
 func sp(s string) *string { return &s }
+
+// ---------- Gateway API: is there a partial path? ----------
+
+type probeRow struct {
+	Event        string `json:"event"`
+	Accepted     int    `json:"handlers_accepting"`
+	BatchFull    bool   `json:"batch_need_full_sync"`     // set by the watcher (handler marked full)
+	GatewayFull  bool   `json:"gateway_converter_need_full_sync"` // tracker links to the gateway
+	FullSync     bool   `json:"full_sync"`
+}
+
+// gwProbe drives the real watchers with one change of every kind a Gateway API configuration
+// depends on, after the first reconciliation, and records whether the batch takes the full
+// path (the gateway converter has no partial one: Sync(false) returns at once).
+func gwProbe() []probeRow {
+	sel := gatewayv1.NamespacesFromSelector
+	gwobjs := gwObjects("a", "a.local", "certificateref", gwRef{Name: "foreign"}, metav1.NewTime(t0))
+	gw := gwobjs[0].(*gatewayv1.Gateway)
+	gw.Generation = 1
+	gw.Spec.Listeners = append(gw.Spec.Listeners, gatewayv1.Listener{Name: "sel", Port: 8081, Protocol: gatewayv1.HTTPProtocolType,
+		AllowedRoutes: &gatewayv1.AllowedRoutes{Namespaces: &gatewayv1.RouteNamespaces{From: &sel, Selector: &metav1.LabelSelector{MatchLabels: map[string]string{"team": "x"}}}}})
+	hr := gwobjs[1].(*gatewayv1.HTTPRoute)
+	hr.Generation = 1
+	hr.Spec.ParentRefs = []gatewayv1.ParentReference{{Name: "gw"}}
+	tsec := gatewayv1.SectionName("tcp")
+	tr := &gatewayv1alpha2.TCPRoute{ObjectMeta: metav1.ObjectMeta{Namespace: "a", Name: "trt", Generation: 1}}
+	tr.Spec.ParentRefs = []gatewayv1.ParentReference{{Name: "gw", SectionName: &tsec}}
+	tr.Spec.Rules = []gatewayv1alpha2.TCPRouteRule{{BackendRefs: []gatewayv1.BackendRef{gwBackendRef(gwRef{Name: "svc"})}}}
+	gc := &gatewayv1.GatewayClass{ObjectMeta: metav1.ObjectMeta{Name: "haproxy", Generation: 1}, Spec: gatewayv1.GatewayClassSpec{ControllerName: gatewayv1.GatewayController(oursCtrl)}}
+	svc, ep := c0809.Service("a", "svc", 8080, "172.17.0.11", nil)
+	sec := c0809.Secret("a", "foreign", c0809.SecretData("tls", "a", "foreign"))
+	nsa := &api.Namespace{ObjectMeta: metav1.ObjectMeta{Name: "a", Labels: map[string]string{"team": "x"}}}
+	cm := c0809.ConfigMap(map[string]string{})
+	env := c0809.NewEnv(nextDir(), c0809.CfgIn{IngressClass: "haproxy", ControllerName: oursCtrl, Gateway: true}, gc, gw, hr, tr, svc, ep, sec, nsa)
+	p := c0809.NewPipeline(env)
+	p.Watchers.FireCreate(cm)
+	p.Reconcile(p.Watchers.Swap(), nil)
+	var rows []probeRow
+	fire := func(name string, old, cur client.Object, mutate func()) {
+		mutate()
+		stored := cur.DeepCopyObject().(client.Object)
+		if err := env.Client.Get(env.Ctx, client.ObjectKeyFromObject(cur), stored); err == nil {
+			cur.SetResourceVersion(stored.GetResourceVersion())
+			c0809.Must(env.Client.Update(env.Ctx, cur.DeepCopyObject().(client.Object)))
+		}
+		acc := p.Watchers.FireUpdate(old, cur)
+		ch := p.Watchers.Swap()
+		gwFull := gateway.NewGatewayConverter(p.Opt, p.HAProxy, ch, nil).NeedFullSync()
+		rows = append(rows, probeRow{Event: name, Accepted: acc, BatchFull: ch.NeedFullSync, GatewayFull: gwFull, FullSync: ch.NeedFullSync || gwFull})
+		p.Reconcile(ch, nil)
+	}
+	{
+		old := gw.DeepCopy()
+		fire("Gateway spec change", old, gw, func() { gw.Generation++; gw.Spec.Listeners[0].Port = 8000 })
+	}
+	{
+		old := hr.DeepCopy()
+		fire("HTTPRoute spec change", old, hr, func() { hr.Generation++; hr.Spec.Hostnames = []gatewayv1.Hostname{"a2.local"} })
+	}
+	{
+		old := tr.DeepCopy()
+		fire("TCPRoute spec change", old, tr, func() { tr.Generation++; tr.Spec.Rules[0].BackendRefs[0].Weight = nil })
+	}
+	{
+		old := gc.DeepCopy()
+		fire("GatewayClass spec change", old, gc, func() { gc.Generation++; d := "x"; gc.Spec.Description = &d })
+	}
+	{
+		old := sec.DeepCopy()
+		fire("Secret of a listener certificateRef", old, sec, func() { sec.Data = c0809.SecretDataV("tls", "a", "foreign", 2) })
+	}
+	{
+		old := svc.DeepCopy()
+		fire("Service of a backendRef (annotation)", old, svc, func() { svc.Annotations = map[string]string{annPrefix + "balance-algorithm": "leastconn"} })
+	}
+	{
+		old := ep.DeepCopy()
+		fire("Endpoints of a backendRef", old, ep, func() { ep.Subsets[0].Addresses[0].IP = "172.17.0.21" })
+	}
+	{
+		old := nsa.DeepCopy()
+		fire("Namespace label used by an allowedRoutes selector", old, nsa, func() { nsa.Labels = map[string]string{"team": "y"} })
+	}
+	return rows
+}
 
 // ---------- generators ----------
 
@@ -990,6 +1097,13 @@ func main() {
 				}
 			}
 		}
+		// allow -> deny through the ConfigMap watcher: the reference is observed one reconciliation after
+		// the change (the window) and after the next full sync (the oracle)
+		for _, gsite := range gwSites {
+			for _, name := range []string{"foreign", "b/foreign"} {
+				inputs = append(inputs, input{Kind: "gwsites", Setting: setting{}, GW: &gwRef{Site: gsite, Name: name, NS: sp("b")}, BUses: "same-key", Flip: true})
+			}
+		}
 		for _, gsite := range gwSites {
 			for _, order := range []string{"owner-first", "owner-last"} {
 				for _, nsm := range []*string{nil, sp("b")} {
@@ -1018,6 +1132,19 @@ func main() {
 		}
 	}
 
+	if o.Replay == "" {
+		// no partial path of the gateway converter may exist unnoticed: every change a Gateway API
+		// configuration depends on has to take the full path (Namespace labels have no watcher at all)
+		rows := gwProbe()
+		res.Extra["gateway_event_paths"] = rows
+		for _, r := range rows {
+			res.OracleChecks++
+			if !r.FullSync && !strings.HasPrefix(r.Event, "Namespace") {
+				res.Fail(hx.Failure{Key: "C09/gateway-partial-path", What: fmt.Sprintf("%s after the first reconciliation is not a full sync: the gateway converter has a partial path (or a stale one) that the C09 grid does not exercise", r.Event),
+					Input: input{Kind: "gwprobe"}, Observed: rows})
+			}
+		}
+	}
 	for _, in := range inputs {
 		in := in
 		res.Count("kind=" + in.Kind)
@@ -1090,6 +1217,14 @@ func main() {
 			w3 := runGwWorld(in, 2)
 			res.OracleChecks += 2
 			res.Sample(8, map[string]interface{}{"input": in, "world_with_foreign_object": w1.View, "world_without": w2.View})
+			if denied && in.Flip && w1.Window != nil && w2.Window != nil {
+				// the window: the gateway converter of a full sync uses the bits parsed by the previous one
+				open := !sameView(*w1.Window, *w2.Window)
+				res.Count(fmt.Sprintf("gateway_window/%s/name=%s/open=%v", ref.Site, ref.Name, open))
+				if open {
+					res.Extra["gateway_window_example"] = map[string]interface{}{"input": in, "one_reconciliation_after_deny_with_foreign": w1.Window, "without_foreign": w2.Window, "after_the_next_full_sync": w1.View}
+				}
+			}
 			if denied && (!sameView(w1.View, w2.View) || !sameView(w1.View, w3.View)) {
 				key := "C09/site-gateway-backendref"
 				if ref.Site == "certificateref" {
